@@ -629,7 +629,11 @@ def queue_generated(ctx, tools, enums, runner, srcs):
         if "ir" not in r:
             cases.append({"name": name, "rejected": str(r.get("err") or r.get("panic") or r.get("crash") or r)[:200], "tag": "gen"})
             continue
-        cases += queue_program(ctx, enums, runner, name, r, sets_of[name], ["finite", "pool", "small", "pool"], [3, 1, 4, 2],
+        # float inputs of generated programs are finite and exact (mode "finite": integers still come from the boundary
+        # pool): WGSL lets an implementation assume NaNs and infinities are absent at run time, so a program whose
+        # control flow or stored value depends on a NaN input (sign(NaN), x != NaN) has no single right answer; the
+        # special values are exercised operator by operator in the probe table instead
+        cases += queue_program(ctx, enums, runner, name, r, sets_of[name], ["finite", "small", "finite", "finite"], [3, 1, 4, 2],
                                ctx.scale(3, 4), "gen")
     return cases, {name: ast for name, ast, src in progs}
 
